@@ -6,6 +6,7 @@ import (
 	"go/constant"
 	"go/token"
 	"go/types"
+	"os"
 	"sort"
 	"strings"
 
@@ -177,7 +178,7 @@ func graphWritersRule(r *Report, p *Prog, e *Effect, rule string, roots []*ssa.F
 func checkC06(r *Report) {
 	p := loadResolve("", true)
 	pathTrusted(r)
-	r.Explain = "Path rules on the SSA control-flow graph of the npm resolver. C06.a LOOP-ACCOUNT: in the loop that asks the client for matching versions of each requirement, every path through one iteration ends in (*Graph).AddEdge, (*Graph).AddError or a return, so each non-dev, non-peer requirement becomes an edge, a node error, or aborts the resolution. C06.b PAIR: each (*Graph).AddNode in that loop is followed on every continuing path by an AddEdge whose target is the id just created; C06.c GRAPH-WRITERS: nothing reachable from Resolve writes Graph.Nodes/Edges except Graph's own append-only Add* methods; with the root as base case every node is reachable from the root by induction on insertion order. C06.d KNOWN-EMPTY-KEY (deny-list): no slot/alias table of the npm resolver is looked up with a variable on a branch where that variable is known to be the empty string (such a lookup can never hit, so a reservation that protects Node's walk-up lookup would be silently ignored). C06.g SLOT-FREE: a freshly installed node is written into a level's children/alias table only where that level was tested to hold no package of that name: the level is the variable of the climbing loop, and each value that flows into it (the dependent's own level at loop entry, the parent at each step) is the argument of a candidate(level, name, alias) call whose non-nil outcome leaves the path, so no directory ends up with two packages of one name. C06.f CLIMB-RESERVES: in the two loops of Resolve that walk up the install tree (p = p.parent), the slot reserved against shadowing (protected / aliasProtected) is that of the level being left, i.e. the map updated belongs to the loop variable itself and not to its parent; otherwise the dependent's own level stays unreserved and a later install can shadow the version its edge points to. C06.e DEV-INERT: in regularImports (the filter that decides which requirements of a version enter that loop) dev requirements and peer-scoped requirements are never emitted, so they must not influence what is emitted either: every write to the filter's suppression tables and every append to its result happens on the not-dev side of a HasAttr(dep.Dev) test and on the not-peer side of a scope test of the same iteration; otherwise a dev entry could suppress a regular requirement that then gets neither an edge nor an error. Not decided: that the edge target satisfies the requirement, version choice, and the hoisting/shadowing logic as a whole."
+	r.Explain = "Path rules on the SSA control-flow graph of the npm resolver. C06.a LOOP-ACCOUNT: in the loop that asks the client for matching versions of each requirement, every path through one iteration ends in (*Graph).AddEdge, (*Graph).AddError or a return, so each non-dev, non-peer requirement becomes an edge, a node error, or aborts the resolution. C06.b PAIR: each (*Graph).AddNode in that loop is followed on every continuing path by an AddEdge whose target is the id just created; C06.c GRAPH-WRITERS: nothing reachable from Resolve writes Graph.Nodes/Edges except Graph's own append-only Add* methods; with the root as base case every node is reachable from the root by induction on insertion order. C06.d KNOWN-EMPTY-KEY (deny-list): no slot/alias table of the npm resolver is looked up with a variable on a branch where that variable is known to be the empty string (such a lookup can never hit, so a reservation that protects Node's walk-up lookup would be silently ignored). C06.g SLOT-FREE: a freshly installed node is written into a level's children/alias table only where that level was tested to hold no package of that name: the level is the variable of the climbing loop, and each value that flows into it (the dependent's own level at loop entry, the parent at each step) is the argument of a candidate(level, name, alias) call whose non-nil outcome leaves the path, so no directory ends up with two packages of one name; and likewise each such level was the argument of a protected(level, name, alias) call whose positive outcome leaves the path, so an install never lands in a slot reserved for a version resolved higher up. C06.f CLIMB-RESERVES: in the two loops of Resolve that walk up the install tree (p = p.parent), the slot reserved against shadowing (protected / aliasProtected) is that of the level being left, i.e. the map updated belongs to the loop variable itself and not to its parent; otherwise the dependent's own level stays unreserved and a later install can shadow the version its edge points to. C06.e DEV-INERT: in regularImports (the filter that decides which requirements of a version enter that loop) dev requirements and peer-scoped requirements are never emitted, so they must not influence what is emitted either: every write to the filter's suppression tables and every append to its result happens on the not-dev side of a HasAttr(dep.Dev) test and on the not-peer side of a scope test of the same iteration; otherwise a dev entry could suppress a regular requirement that then gets neither an edge nor an error. Not decided: that the edge target satisfies the requirement, version choice, and the hoisting/shadowing logic as a whole."
 	fn := p.lookupFn("(*resolve/npm.resolver).Resolve")
 	if fn == nil {
 		r.bad("C06.a/LOOP-ACCOUNT", "npm Resolve", "", "function (*resolve/npm.resolver).Resolve not found")
@@ -995,6 +996,74 @@ func slotFreeRule(r *Report, p *Prog, rule string, fn *ssa.Function) {
 		}
 		return false
 	}
+	// installHere: the flag that keeps the new node at the dependent's level; it is the value
+	// negated in the header condition of the climbing loop (for !installHere && ...)
+	hereVals := map[ssa.Value]bool{}
+	for _, l := range naturalLoops(fn) {
+		hasProt := false
+		for b := range l.body {
+			for _, in := range b.Instrs {
+				if staticCalleeName(in) == "(*resolve/npm.resolver).protected" {
+					hasProt = true
+				}
+			}
+		}
+		if !hasProt {
+			continue
+		}
+		if ifi, ok := l.header.Instrs[len(l.header.Instrs)-1].(*ssa.If); ok {
+			if u, ok := ifi.Cond.(*ssa.UnOp); ok && u.Op == token.NOT {
+				hereVals[u.X] = true
+			} else if _, ok := ifi.Cond.Type().Underlying().(*types.Basic); ok {
+				hereVals[ifi.Cond] = true
+			}
+		}
+	}
+	// testedUnreserved: like testedFree, for the boolean protected(level, name, alias):
+	// the path continues on the side where the level does not reserve the name
+	testedUnreserved := func(v ssa.Value, at, to *ssa.BasicBlock) bool {
+		for _, g := range fn.Blocks {
+			ifi, ok := g.Instrs[len(g.Instrs)-1].(*ssa.If)
+			if !ok {
+				continue
+			}
+			reservedSucc := -1
+			condDerives(ifi.Cond, 0, func(x ssa.Value) bool {
+				if call, ok := x.(*ssa.Call); ok && staticCalleeName(call) == "(*resolve/npm.resolver).protected" && len(call.Call.Args) >= 2 && same(call.Call.Args[1], v) {
+					reservedSucc = 0
+					return true
+				}
+				return false
+			})
+			if reservedSucc < 0 {
+				continue
+			}
+			// a condition of the form !installHere && protected(...): the true side is the reserved one
+			reserved := g.Succs[0]
+			if u, ok := ifi.Cond.(*ssa.UnOp); ok && u.Op == token.NOT {
+				reserved = g.Succs[1]
+			}
+			if g == at {
+				if to != nil && to != reserved && (g.Succs[0] == to || g.Succs[1] == to) {
+					return true
+				}
+				continue
+			}
+			if g.Dominates(at) && !reaches(reserved, at, g) {
+				return true
+			}
+			// the test may be skipped when the node has to be installed at this very level
+			// (installHere): accept if, without the edges taken when installHere is true, every
+			// path to the install passes the test
+			if os.Getenv("DEPSCHECK_DEBUG") != "" {
+				fmt.Fprintf(os.Stderr, "unreserved? v=%s guard=%s at=%d to=%v dom=%v reachReserved=%v pruned=%v here=%d\n", v.Name(), blockPos(p, g), at.Index, to != nil, g.Dominates(at), reaches(reserved, at, g), reachesPruned(fn.Blocks[0], at, g, hereVals), len(hereVals))
+			}
+			if len(hereVals) > 0 && !reachesPruned(reserved, at, g, hereVals) && !reachesPruned(fn.Blocks[0], at, g, hereVals) {
+				return true
+			}
+		}
+		return false
+	}
 	n := 0
 	seen := map[string]int{}
 	for _, b := range fn.Blocks {
@@ -1015,6 +1084,25 @@ func slotFreeRule(r *Report, p *Prog, rule string, fn *ssa.Function) {
 			seen[fieldName(fa)]++
 			key := fmt.Sprintf("%s: install into %s #%d", fnKey(fn), fieldName(fa), seen[fieldName(fa)])
 			level := fa.X
+			// the same for reservations: no level that can reach the install reserves the name
+			{
+				var unres []string
+				if phi, ok := level.(*ssa.Phi); ok {
+					for i, e := range phi.Edges {
+						if !testedUnreserved(e, phi.Block().Preds[i], phi.Block()) {
+							unres = append(unres, fmt.Sprintf("the value arriving from %s", blockPos(p, phi.Block().Preds[i])))
+						}
+					}
+				} else if !testedUnreserved(level, b, nil) {
+					unres = append(unres, "the level itself")
+				}
+				rkey := fmt.Sprintf("%s: install into %s #%d respects reservations", fnKey(fn), fieldName(fa), seen[fieldName(fa)])
+				if len(unres) == 0 {
+					r.ok(rule, rkey, p.pos(mu.Pos()), "every level that can reach this install was tested with protected() and does not reserve the name")
+				} else {
+					r.bad(rule, rkey, p.pos(mu.Pos()), "a package is installed into a level that was not tested for a reservation of that name ("+strings.Join(unres, "; ")+"): the name is reserved there when an earlier requirement of the same version was resolved higher up, and the copy installed now shadows it")
+				}
+			}
 			var untested []string
 			if phi, ok := level.(*ssa.Phi); ok {
 				for i, e := range phi.Edges {
@@ -1112,4 +1200,36 @@ func knownNot(f *ssa.Function, v ssa.Value, k string) map[*ssa.BasicBlock]bool {
 		}
 	}
 	return in
+}
+
+// reachesPruned: to is reachable from from without passing through avoid and
+// without taking an edge on which one of the given boolean values is true.
+func reachesPruned(from, to, avoid *ssa.BasicBlock, trueVals map[ssa.Value]bool) bool {
+	seen := map[*ssa.BasicBlock]bool{avoid: true}
+	stack := []*ssa.BasicBlock{from}
+	for len(stack) > 0 {
+		b := stack[len(stack)-1]
+		stack = stack[:len(stack)-1]
+		if seen[b] {
+			continue
+		}
+		seen[b] = true
+		if b == to {
+			return true
+		}
+		skip := -1
+		if ifi, ok := b.Instrs[len(b.Instrs)-1].(*ssa.If); ok {
+			if trueVals[ifi.Cond] {
+				skip = 0
+			} else if u, ok := ifi.Cond.(*ssa.UnOp); ok && u.Op == token.NOT && trueVals[u.X] {
+				skip = 1
+			}
+		}
+		for i, s := range b.Succs {
+			if i != skip {
+				stack = append(stack, s)
+			}
+		}
+	}
+	return false
 }
